@@ -144,11 +144,23 @@ type rzStore struct {
 	// park points
 	parkAppend chan struct{} // non-nil: the next Append blocks here until closed
 	parkAfter  chan struct{}
+	parkOpen   chan struct{} // non-nil: the next Open blocks here until closed (an event store is an I/O boundary)
 }
 
 func (s *rzStore) Open(ctx context.Context, sess, stream string) error {
 	s.h.mu.Lock()
-	s.h.sawStream(sess, stream)
+	p := s.parkOpen
+	if stream != "" {
+		s.parkOpen = nil
+	} else {
+		p = nil
+	}
+	s.h.mu.Unlock()
+	if p != nil {
+		<-p
+	}
+	s.h.mu.Lock()
+	s.h.sawStream(sess, stream) // named when the Open takes effect
 	s.h.mu.Unlock()
 	return s.inner.Open(ctx, sess, stream)
 }
@@ -907,44 +919,27 @@ func (h *rzHarness) apply(toks []string) (obs string) {
 		return h.observe(toks[1])
 	case "call": // call <sess> ids=3,4 hv=<ver> b=<budget>
 		name := toks[1]
-		var s *rzSess
-		if h.stateless {
-			s = &rzSess{name: name, streams: map[string]string{}}
-			h.mu.Lock()
-			h.sessions = append(h.sessions, s)
-			h.current = s
-			h.mu.Unlock()
-		}
-		n := len(h.exchs) + 1
-		var parts []string
-		for _, id := range strings.Split(kv["ids"], ",") {
-			idn, _ := strconv.Atoi(id)
-			key := fmt.Sprintf("%s.%d.x%d", name, idn, n)
-			if s != nil {
-				h.mu.Lock()
-				h.pending[key] = s
-				h.mu.Unlock()
-			}
-			if kv["hv"] == "d" {
-				parts = append(parts, fmt.Sprintf(rzCallBodyNew, idn, key))
-			} else {
-				parts = append(parts, fmt.Sprintf(rzCallBody, idn, key))
-			}
-		}
-		body := parts[0]
-		if len(parts) > 1 {
-			body = "[" + strings.Join(parts, ",") + "]"
-		}
-		sessHdr := name
-		if h.stateless {
-			sessHdr = name // no header is sent: the session has no real id
-		}
-		r := rzReq{method: "POST", sess: sessHdr, version: rzVersion(kv["hv"]), body: body, budget: rzBudget(kv["b"])}
-		if kv["hv"] == "d" {
-			r.extra = map[string]string{"Mcp-Method": "tools/call", "Mcp-Name": "t"}
-		}
-		h.serve(r)
+		h.postCall(name, kv)
 		synctest.Wait()
+		return h.observe(name)
+	case "duprace": // duprace <sess> ids=<r> hv=<ver> : two POSTs carrying the same call id; the first is parked inside EventStore.Open while the second arrives
+		if h.store == nil || h.stateless {
+			return "bad-op"
+		}
+		name := toks[1]
+		park := make(chan struct{})
+		h.mu.Lock()
+		h.store.parkOpen = park
+		h.mu.Unlock()
+		h.postCall(name, kv) // A: sits inside Open
+		synctest.Wait()
+		h.postCall(name, kv) // B: same id(s)
+		synctest.Wait()
+		close(park)
+		synctest.Wait()
+		h.mu.Lock()
+		h.store.parkOpen = nil
+		h.mu.Unlock()
 		return h.observe(name)
 	case "listen": // listen <sess> id=<n> b=<budget> : stateless 2026-07-28 subscriptions/listen
 		name := toks[1]
@@ -1083,6 +1078,45 @@ func (h *rzHarness) apply(toks []string) (obs string) {
 		return h.race(toks, false)
 	}
 	return "bad-op"
+}
+
+// postCall starts one POST carrying tools/call requests with the given ids (handler keys <sess>.<id>.x<exchange>).
+func (h *rzHarness) postCall(name string, kv map[string]string) {
+	var s *rzSess
+	if h.stateless {
+		s = &rzSess{name: name, streams: map[string]string{}}
+		h.mu.Lock()
+		h.sessions = append(h.sessions, s)
+		h.current = s
+		h.mu.Unlock()
+	}
+	h.mu.Lock()
+	n := len(h.exchs) + 1
+	h.mu.Unlock()
+	var parts []string
+	for _, id := range strings.Split(kv["ids"], ",") {
+		idn, _ := strconv.Atoi(id)
+		key := fmt.Sprintf("%s.%d.x%d", name, idn, n)
+		if s != nil {
+			h.mu.Lock()
+			h.pending[key] = s
+			h.mu.Unlock()
+		}
+		if kv["hv"] == "d" {
+			parts = append(parts, fmt.Sprintf(rzCallBodyNew, idn, key))
+		} else {
+			parts = append(parts, fmt.Sprintf(rzCallBody, idn, key))
+		}
+	}
+	body := parts[0]
+	if len(parts) > 1 {
+		body = "[" + strings.Join(parts, ",") + "]"
+	}
+	r := rzReq{method: "POST", sess: name, version: rzVersion(kv["hv"]), body: body, budget: rzBudget(kv["b"])}
+	if kv["hv"] == "d" {
+		r.extra = map[string]string{"Mcp-Method": "tools/call", "Mcp-Name": "t"}
+	}
+	h.serve(r)
 }
 
 func (h *rzHarness) exch(tok string) *rzExch {
@@ -1751,6 +1785,26 @@ func (g *rzGen) stepStateful() {
 	switch {
 	case r < 14:
 		if len(parked) < 4 {
+			if g.store && g.prng != nil && g.prng.Intn(100) < 10 {
+				// two POSTs with the same (free) call id, the first one held inside EventStore.Open while the second arrives
+				inflight := map[int]bool{}
+				for _, q := range parked {
+					inflight[q.id] = true
+				}
+				id := 0
+				for k := 1; k <= 6; k++ {
+					if !inflight[k] {
+						id = k
+						break
+					}
+				}
+				if id != 0 {
+					x := g.nex + 2 // the second POST is the one that is accepted
+					g.do(fmt.Sprintf("duprace %s ids=%d hv=%s", s.name, id, g.version()), "duprace")
+					s.reqs = append(s.reqs, &rzGReq{id: id, x: x})
+					return
+				}
+			}
 			g.call(s)
 			return
 		}
@@ -1929,7 +1983,14 @@ func rzGenCase(t *testing.T, out *verifOut, c int, prop string) (cuts, resumes, 
 		g := &rzGen{rng: rng, out: out, cs: cs, prop: prop, hang: map[int]string{}, idReuse: os.Getenv("VERIF_RESUME_IDREUSE") == "1"}
 		// configuration: C08 concentrates on stateful SSE with a store; C10 spreads over the matrix
 		r := rng.Intn(100)
-		if prop == "C10" {
+		if prop == "C02" {
+			// id bookkeeping on the streamable server: stateful, mostly without a store (an undeliverable response is dropped),
+			// cuts, and ids from a small pool reused after completion
+			g.stateless = false
+			g.jsonMode = r%4 == 0
+			g.store = r%5 == 0
+			g.maxSess = 1 + rng.Intn(2)
+		} else if prop == "C10" {
 			g.stateless = r%4 == 0
 			g.jsonMode = (r/4)%3 == 0
 			g.store = (r/12)%3 != 0
